@@ -38,6 +38,10 @@ Definition same_but_size {K V : Type} (x y : @out K V) : Prop :=
   | _, _ => x = y
   end.
 
+(* the observable form of "a Delete hit an absent key": it answered ErrorNotFound *)
+Definition is_notfound {K V : Type} (o : @out K V) : bool :=
+  match o with ODel true => true | _ => false end.
+
 Definition get_result {K V : Type} (k : K) (o : option V) : res (K * V) :=
   match o with Some v => Ok (k, v) | None => Err NotFound end.
 
@@ -809,6 +813,34 @@ Section Proofs.
     intros Hne. rewrite state_after_snoc, (get_after_delete _ k k' (bst_invariant ops)).
     now rewrite (keqb_neq _ _ Hne).
   Qed.
+
+  (* the count used in the Size law is the number of ErrorNotFound answers
+     that the Delete calls of the history actually returned *)
+  Lemma absent_deletes_from_count (ops : list op) : forall hist,
+    absent_deletes_from keqb hist ops =
+    length (filter is_notfound (snd (run comp ops (state_after comp hist)))).
+  Proof.
+    induction ops as [|o ops IH]; intros hist; cbn [absent_deletes_from run]; [reflexivity|].
+    rewrite (IH (hist ++ [o])), state_after_snoc.
+    assert (Hx : (match o with
+                  | Delete k => match latest keqb k hist with None => 1 | Some _ => 0 end
+                  | _ => 0
+                  end)%nat = if is_notfound (snd (step comp (state_after comp hist) o)) then 1%nat else 0%nat).
+    { destruct o as [k v | k | k | |].
+      - cbn [step]. destruct (root (state_after comp hist)); [reflexivity|].
+        destruct (upsert_node comp _ k v _) as [[t' s']| |]; reflexivity.
+      - rewrite (delete_err_iff_absent hist k). destruct (latest keqb k hist); reflexivity.
+      - reflexivity.
+      - reflexivity.
+      - reflexivity. }
+    rewrite Hx. destruct (step comp (state_after comp hist) o) as [b1 x]. cbn [fst snd].
+    destruct (run comp ops b1) as [b2 xs]. cbn [snd filter].
+    destruct (is_notfound x); reflexivity.
+  Qed.
+
+  Lemma absent_deletes_count (ops : list op) :
+    absent_deletes keqb ops = length (filter is_notfound (outs comp ops)).
+  Proof. apply (absent_deletes_from_count ops []). Qed.
 
   Lemma run_map_no_panic (ops : list op) : forall m : amap, ~ In OPanic (snd (run_map comp keqb ops m)).
   Proof.
